@@ -256,10 +256,6 @@ class UDPMessageDeserializer:
         decode_buf = bytearray()
         in_zero = False
         for c in msg_buf:
-            # Well beyond what the viewer allows zerocoding to expand to
-            if len(decode_buf) > 0x3000:
-                raise ValueError("Unreasonably large zerocoded message")
-
             if c == 0x00:
                 # Always have to write the zero in case we're the last byte
                 decode_buf.append(0x00)
@@ -278,5 +274,9 @@ class UDPMessageDeserializer:
                 # Regular character
                 else:
                     decode_buf.append(c)
+
+            # Well beyond what the viewer allows zerocoding to expand to
+            if len(decode_buf) > 0x3000:
+                raise ValueError("Unreasonably large zerocoded message")
 
         return decode_buf
